@@ -6,10 +6,11 @@ import Modbus.Model.Crc
 import Modbus.Model.Rtu
 import Modbus.Model.Tcp
 import Modbus.Model.Receiver
+import Modbus.Model.Fast
 /-
 Line-protocol driver for the model (DESIGN.md §3.1).  One operation per input line, one
-canonical result line per operation.  Imports the model only (no Mathlib, no proofs) so it links
-as a `lean_exe`.  Text after " # " on a result line is commentary and never compared.
+canonical result line per operation.  Imports the model and `Model/Fast.lean` (linear implementations PROVED equal to the model's
+functions and substituted by `@[csimp]`; core-only, no Mathlib) so it links as a `lean_exe`.  Text after " # " on a result line is commentary and never compared.
 -/
 open Modbus
 
@@ -120,11 +121,11 @@ def wordStr : Res (Option UInt16) → String
 
 /-- `c<len>:<get(0) … get(len-1)>` -/
 def coilsStr (c : Coils) : String :=
-  "c" ++ toString c.len ++ ":" ++ String.ofList ((List.range c.len).map fun i => coilChar (c.get i))
+  "c" ++ toString c.len ++ ":" ++ String.ofList (c.getAll.map coilChar)
 
 /-- `d<len>:<get(0),…,get(len-1)>` -/
 def dataStr (d : Data) : String :=
-  "d" ++ toString d.len ++ ":" ++ ",".intercalate ((List.range d.len).map fun i => wordStr (d.get i))
+  "d" ++ toString d.len ++ ":" ++ ",".intercalate (d.getAll.map wordStr)
 
 def b01 (b : Bool) : String := if b then "1" else "0"
 
